@@ -41,8 +41,11 @@ func genSize(t *rapid.T, label string) int {
 		return rapid.IntRange(1, 200).Draw(t, label)
 	case k < 85:
 		return rapid.IntRange(4000, 4200).Draw(t, label)
-	case k < 93:
+	case k < 89:
 		return rapid.IntRange(1000, 70000).Draw(t, label)
+	case k < 93:
+		// exact multiples of the tar block size: padding / alignment boundaries
+		return rapid.SampledFrom([]int{512, 1024, 1536, 4096, 10240}).Draw(t, label)
 	case k < 98:
 		return rapid.IntRange(131000, 140000).Draw(t, label)
 	default:
@@ -208,7 +211,8 @@ func relTo(from, to string) string {
 
 // ---------- destinations ----------
 
-var dstPrefixes = []string{"/opt/app", "/usr/share/foo", "/etc/foo", "/var/lib/my app", "/srv/données", "/usr/lib/foo/bar", "/opt/x/y/z"}
+var dstPrefixes = []string{"/opt/app", "/usr/share/foo", "/etc/foo", "/var/lib/my app", "/srv/données", "/usr/lib/foo/bar", "/opt/x/y/z",
+	"/+extras", "/.BUILD/x", "/-opt", "/.1st", "/ lead"}
 
 // spellDst returns an alternative spelling of an absolute clean path that denotes the same node.
 func spellDst(t *rapid.T, label, clean string, allowTrailing bool) string {
@@ -277,7 +281,7 @@ func genContents(t *rapid.T, c *BuildCase, o contentOpts) {
 		case kind <= 7: // file-like with some source form
 			e.Type = rapid.SampledFrom(fileTypes).Draw(t, lbl+".type")
 			e.FI = genFileInfo(t, lbl+".fi", true)
-			form := rapid.SampledFrom([]string{"single", "single", "singleslash", "dir", "dirslash", "flat", "glob*", "globext", "globbrace", "glob**", "globq"}).Draw(t, lbl+".form")
+			form := rapid.SampledFrom([]string{"single", "single", "singleslash", "dir", "dirslash", "flat", "glob*", "globext", "globbrace", "glob**", "globq", "globsib"}).Draw(t, lbl+".form")
 			allowMeta := o.weirdNames
 			switch form {
 			case "single", "singleslash":
@@ -330,6 +334,14 @@ func genContents(t *rapid.T, c *BuildCase, o contentOpts) {
 					u.nodes = append(u.nodes, FNode{Rel: udir + "/Qa", Kind: "file", Size: 5, Seed: 9 + i, Mode: 0o640, MTime: genMTime(t, lbl+".xm")})
 					u.nodes = append(u.nodes, FNode{Rel: udir + "/Qb", Kind: "file", Size: 6, Seed: 10 + i, Mode: 0o604, MTime: genMTime(t, lbl+".xm2")})
 					e.Src = udir + "/Q?"
+				case "globsib":
+					// matches only inside sibling directories one of whose names is a prefix of the other
+					pair := rapid.SampledFrom([][2]string{{"Lib", "Lib64"}, {"Man", "Man1"}, {"A", "AB"}}).Draw(t, lbl+".sib")
+					u.nodes = append(u.nodes, FNode{Rel: udir + "/" + pair[0], Kind: "dir", Mode: 0o755, MTime: genMTime(t, lbl+".sm0")},
+						FNode{Rel: udir + "/" + pair[1], Kind: "dir", Mode: 0o755, MTime: genMTime(t, lbl+".sm1")},
+						FNode{Rel: udir + "/" + pair[0] + "/Liba.so", Kind: "file", Size: 17, Seed: 13 + i, Mode: 0o755, MTime: genMTime(t, lbl+".sm2")},
+						FNode{Rel: udir + "/" + pair[1] + "/Libb.so", Kind: "file", Size: 19, Seed: 14 + i, Mode: 0o755, MTime: genMTime(t, lbl+".sm3")})
+					e.Src = udir + "/**/*.so"
 				case "globbrace":
 					u.nodes = append(u.nodes, FNode{Rel: udir + "/One.x", Kind: "file", Size: 5, Seed: 11 + i, Mode: 0o644, MTime: genMTime(t, lbl+".xm")})
 					u.nodes = append(u.nodes, FNode{Rel: udir + "/Two.x", Kind: "file", Size: 6, Seed: 12 + i, Mode: 0o644, MTime: genMTime(t, lbl+".xm2")})
@@ -484,7 +496,13 @@ func genSimpleScripts(t *rapid.T, c *BuildCase) {
 	}
 	for _, slot := range allScriptSlots {
 		if rapid.IntRange(0, 3).Draw(t, "script."+slot) == 0 {
-			addScript(c, slot, fmt.Sprintf("#!/bin/sh\necho %s\nexit 0\n", slot), genMTime(t, "script.mtime."+slot))
+			txt := fmt.Sprintf("#!/bin/sh\necho %s\nexit 0\n", slot)
+			if rapid.IntRange(0, 3).Draw(t, "script.block."+slot) == 0 {
+				// pad to an exact multiple of the tar block size
+				n := rapid.SampledFrom([]int{512, 1024, 2048}).Draw(t, "script.blocksize."+slot)
+				txt += strings.Repeat("#", n-len(txt)-1) + "\n"
+			}
+			addScript(c, slot, txt, genMTime(t, "script.mtime."+slot))
 		}
 	}
 }
